@@ -17,7 +17,7 @@ import (
 
 // C14 — schema JSON parse and serialise are inverses.
 
-const c14Rule = "rapid draws of schema trees over every kind (records, enums, fixed, arrays, maps, unions with >=1 branches, logical types, names with escapes / non-ASCII) " +
+const c14Rule = "rapid draws of schema trees over every kind (records, enums, fixed, arrays, maps, unions with >=1 branches, logical types, names with escapes / non-ASCII; now and then a thin chain 8-40 levels deep) " +
 	"rendered by the reference renderer with drawn key order, whitespace and extra attributes (doc, default, aliases, order, precision, unknown names) at every object level; " +
 	"oracle: SchemaFromString result converted field-by-field equals the generated tree; Marshal output is valid JSON that the reference parser reads back to the same tree " +
 	"and that SchemaFromString reads back DeepEqual, and the returned bytes stay unchanged while other schemas are marshalled; extra attributes include names that differ from a supported attribute only in case, '_' or '-'; one-edit documents that encoding/json rejects must yield an error; " +
@@ -203,7 +203,30 @@ func drawC14(t *rapid.T) c14Case {
 		o.MaxDepth = 6
 	}
 	var c c14Case
-	if rapid.IntRange(0, 9).Draw(t, "topRecord") < 7 {
+	if gen.Uniform(t, "deepChain", 15) == 0 {
+		// a long, thin schema: 8-40 levels of records / arrays / maps / unions
+		// (BigQuery allows 15 levels of nested records)
+		depth := gen.UniformRange(t, "chainDepth", 8, 40)
+		s := ref.Prim(rapid.SampledFrom([]string{"long", "string", "double"}).Draw(t, "chainLeaf"))
+		for i := 0; i < depth; i++ {
+			inner := s
+			switch gen.Uniform(t, "chainKind", 4) {
+			case 0:
+				s = ref.Schema{Kind: "array", Items: &inner}
+			case 1:
+				s = ref.Schema{Kind: "map", Values: &inner}
+			case 2:
+				if inner.Kind != "union" {
+					s = ref.Nullable(inner)
+					break
+				}
+				fallthrough
+			default:
+				s = ref.Schema{Kind: "record", Name: fmt.Sprintf("L%d", i), Fields: []ref.Field{{Name: "v", Type: inner}, {Name: "n", Type: ref.Prim("long")}}}
+			}
+		}
+		c.Schema = s
+	} else if rapid.IntRange(0, 9).Draw(t, "topRecord") < 7 {
 		c.Schema = gen.RecordSchema(t, o, 0)
 	} else {
 		c.Schema = gen.Schema(t, o, 0)
